@@ -111,8 +111,21 @@ Qed.
 Lemma spec_remote_ext token remote o : spec_remote_k hm token remote o = spec_remote_k hmac_sha1_hex token remote o.
 Proof. unfold spec_remote_k. destruct (classify token); rewrite ?Hhm; reflexivity. Qed.
 
+Lemma ks_auth_ok_ext token remote sent : ks_auth_ok_k hm token remote sent = ks_auth_ok_k hmac_sha1_hex token remote sent.
+Proof.
+  unfold ks_auth_ok_k. apply forallb_ext'. intro q. destruct (strip_prefix "OAuth2 " (snd (fst q))); [apply spec_remote_ext|reflexivity].
+Qed.
+Lemma spec_ksget_ext secrets token remote sent :
+  spec_ksget_k hm secrets token remote sent = spec_ksget_k hmac_sha1_hex secrets token remote sent.
+Proof. unfold spec_ksget_k. rewrite ks_auth_ok_ext. reflexivity. Qed.
+Lemma ksget_model_ext token remote sent : ksget_model_k hm token remote sent = ksget_model_k hmac_sha1_hex token remote sent.
+Proof. unfold ksget_model_k. rewrite remote_client_ext. reflexivity. Qed.
 Lemma spec_k_ext c : spec_k hm c = spec_k hmac_sha1_hex c.
-Proof. destruct c; cbn [spec_k]; [apply spec_salt_ext|apply spec_prov_ext|apply spec_remote_ext|reflexivity..]. Qed.
+Proof.
+  destruct c; cbn [spec_k]; [apply spec_salt_ext|apply spec_prov_ext|apply spec_remote_ext|reflexivity..| |].
+  - apply spec_ksget_ext.
+  - rewrite !spec_ksget_ext. reflexivity.
+Qed.
 Lemma model_k_ext c : model_k hm c = model_k hmac_sha1_hex c.
 Proof.
   destruct c; cbn [model_k].
@@ -123,7 +136,8 @@ Proof.
   - apply forallb_ext'. intro q. apply auth_explained_ext.
   - rewrite crc_ext. reflexivity.
   - apply forallb_ext'. intro q. apply conn_auth_ext.
-  - rewrite remote_client_ext. reflexivity.
+  - apply ksget_model_ext.
+  - rewrite !ksget_model_ext. reflexivity.
 Qed.
 End Ext.
 
@@ -368,7 +382,7 @@ Theorem known_bits_narrow c :
     (found LCookie secrets wire = true -> cookie_carries r secrets = true) /\
     known_F6b_bits c = ((if found LBody secrets wire then 4 else 0) + (if found LCookie secrets wire then 8 else 0))%N.
 Proof.
-  destruct c as [| | |r remote dbt secrets o_err o_auth o_query wire|r dbt secrets sent| | |]; cbn [known_F6b_bits]; try congruence.
+  destruct c as [| | |r remote dbt secrets o_err o_auth o_query wire|r dbt secrets sent| | | |]; cbn [known_F6b_bits]; try congruence.
   - intro H. destruct (f6b_bits_narrow _ _ _ _ H) as (-> & H1). exists r, secrets, wire.
     split; [left; exists remote, dbt, o_auth, o_query; reflexivity|exact H1].
   - intro H. destruct (f6b_bits_narrow _ _ _ _ H) as (_ & H1). exists r, secrets, (all_parts sent).
@@ -525,4 +539,41 @@ Proof.
               destruct (v2_fields_fun _ _ _ _ _ Hv Hv') as [_ <-]. left. reflexivity.
       * split; [intros []|]. intros [(u' & Hv' & _ & Hl' & _)|(Hn & _)]; [|destruct (Hn u s' Hv)].
         destruct (v2_fields_fun _ _ _ _ _ Hv Hv') as [_ <-]. lia.
+Qed.
+
+(* keepstore at the wire: every request sent on behalf of a caller bears exactly what SaltToken returned for
+   that caller's token *)
+Lemma strip_prefix_spec p s t : strip_prefix p s = Some t <-> s = p ++ t.
+Proof.
+  revert s. induction p as [|a p IH]; intro s; cbn [strip_prefix append].
+  - split; [intro H; injection H; auto|intros ->; reflexivity].
+  - destruct s as [|b s]; [split; discriminate|].
+    destruct (Ascii.eqb_spec a b) as [->|Hne].
+    + rewrite IH. split; [intros ->; reflexivity|intro H; injection H; auto].
+    + split; [discriminate|]. intro H. injection H as H1 _. congruence.
+Qed.
+Theorem ks_auth_ok_reflects token remote sent :
+  ks_auth_ok_k hmac_sha1_hex token remote sent = true <->
+  forall q, In q sent -> exists t, snd (fst q) = "OAuth2 " ++ t /\ salt_token token remote = Salted t.
+Proof.
+  unfold ks_auth_ok_k. rewrite forallb_forall. split.
+  - intros H q Hq. specialize (H q Hq). destruct (strip_prefix "OAuth2 " (snd (fst q))) as [t|] eqn:E; [|discriminate].
+    exists t. split; [apply strip_prefix_spec; exact E|]. apply (proj1 (spec_remote_reflects token remote (Some t)) H).
+  - intros H q Hq. destruct (H q Hq) as (t & Ha & Hs). apply strip_prefix_spec in Ha. rewrite Ha.
+    apply (proj2 (spec_remote_reflects token remote (Some t)) Hs).
+Qed.
+Theorem spec_ksget_reflects secrets token remote sent :
+  spec_ksget_k hmac_sha1_hex secrets token remote sent = true <->
+  ((forall s p, In s secrets -> In p (all_parts sent) -> ~ Occurs s (snd p)) /\
+   (forall q, In q sent -> exists t, snd (fst q) = "OAuth2 " ++ t /\ salt_token token remote = Salted t)).
+Proof. unfold spec_ksget_k. rewrite andb_true_iff, clean_b_reflects, ks_auth_ok_reflects. tauto. Qed.
+(* the model's requests satisfy the Authorization clause *)
+Theorem ksget_model_auth_ok token remote sent :
+  ksget_model_k hmac_sha1_hex token remote sent = true -> ks_auth_ok_k hmac_sha1_hex token remote sent = true.
+Proof.
+  unfold ksget_model_k. fold (remote_client token remote). intro H. apply ks_auth_ok_reflects. intros q Hq.
+  destruct (remote_client token remote) as [t|] eqn:E.
+  - rewrite forallb_forall in H. specialize (H q Hq). apply String.eqb_eq in H. exists t. split; [exact H|].
+    apply remote_client_salted. exact E.
+  - destruct sent; [destruct Hq|discriminate].
 Qed.
